@@ -21,6 +21,9 @@ RULE = (
     "after reload; names generated for unnamed automatic styles are new in their family; after merge_styles_from(b) the index is "
     "the union with b's definitions winning, and b's own serialisation is unchanged. Non-trivial = history with a same-name "
     "insertion (replace path), an unnamed automatic insertion, or a merge; distinct by case."
+    ' Also: already-attached Style objects inserted again (from another document / another container); an insertion touches'
+    ' one place only (every other style unchanged); sheets sharing one table style and set_table_displayed on one of them; '
+    'get_styles listings for str and bytes spellings of the family with both automatic flags.'
 )
 ASSUMPTIONS = [
     "placement rule = docstring of insert_style: named common -> styles.xml office:styles; automatic -> content.xml "
